@@ -87,6 +87,11 @@ func (concWorld) Gen(prop, tier string, idx int, r *Rng) *Trace {
 	if tier == "thorough" {
 		cfg.Tasks = []int{2, 3, 4, 8, 16, 16, 32, 64}[r.Intn(8)]
 	}
+	for _, d := range cfg.Claims {
+		if len(d.Sw) > 100 && cfg.Tasks > 8 {
+			cfg.Tasks = 8 // a few hundred components x statement-granular switching x dozens of tasks buys nothing but time
+		}
+	}
 	cfg.Seed = r.U64()
 	switch r.Intn(4) {
 	case 0:
@@ -608,7 +613,8 @@ func runConcIsolated(prop string, tr *Trace) *Result {
 	if procs == "" {
 		procs = "1"
 	}
-	cmd.Env = append(os.Environ(), "GOMAXPROCS="+procs, "GODEBUG=asyncpreemptoff=1", "GORACE=log_path="+filepath.Join(dir, "race")+" halt_on_error=0")
+	hbPath := filepath.Join(dir, "heartbeat")
+	cmd.Env = append(os.Environ(), "GOMAXPROCS="+procs, "GODEBUG=asyncpreemptoff=1", "GORACE=log_path="+filepath.Join(dir, "race")+" halt_on_error=0", "VERIF_HEARTBEAT="+hbPath)
 	cmd.Stdin = bytes.NewReader(tj)
 	var so, se bytes.Buffer
 	cmd.Stdout, cmd.Stderr = &so, &se
@@ -619,14 +625,31 @@ func runConcIsolated(prop string, tr *Trace) *Result {
 	}
 	done := make(chan error, 1)
 	go func() { done <- cmd.Wait() }()
-	select {
-	case <-done:
-	case <-time.After(180 * time.Second):
-		_ = cmd.Process.Kill()
-		<-done
-		r := newResult()
-		r.Fatal = "W-CONC child did not finish within 180 s (a task parked while holding a lock another task needs?)"
-		return r
+	// liveness is judged by progress (the child's step counter, written every two
+	// seconds), not by total wall time: a loaded machine must not turn a slow run
+	// into a verdict. 150 s without a single library statement executed, or 40
+	// minutes in all, is "stuck".
+	started := time.Now()
+	lastBeat, lastChange := "", time.Now()
+	tick := time.NewTicker(5 * time.Second)
+	defer tick.Stop()
+wait:
+	for {
+		select {
+		case <-done:
+			break wait
+		case <-tick.C:
+			if b, err := os.ReadFile(hbPath); err == nil && string(b) != lastBeat {
+				lastBeat, lastChange = string(b), time.Now()
+			}
+			if time.Since(lastChange) > 150*time.Second || time.Since(started) > 40*time.Minute {
+				_ = cmd.Process.Kill()
+				<-done
+				r := newResult()
+				r.Fatal = fmt.Sprintf("W-CONC child made no progress for %.0f s (step counter %q, %.0f s after start): a task parked while holding a lock another task needs?", time.Since(lastChange).Seconds(), lastBeat, time.Since(started).Seconds())
+				return r
+			}
+		}
 	}
 	var res *Result
 	if idx := strings.LastIndex(so.String(), "RESULT "); idx >= 0 {
